@@ -97,7 +97,7 @@ def strategy(tier):
 
 
 def budget(tier):
-    return 3000 if tier == "quick" else 200000
+    return 3000 if tier == "quick" else 50000
 
 
 def classify(case):
